@@ -11,7 +11,7 @@
 (* The property layer is SearchProps; MC_Search checks that every finished *)
 (* run of this module satisfies it and emits the runs as cases.            *)
 (***************************************************************************)
-EXTENDS SearchProps
+EXTENDS DfsOrder
 
 VARIABLES nval,     \* node values (priority of pfs)
           phase,    \* "build" | "run" | "done" | "end"
@@ -222,6 +222,11 @@ RefinesOrder ==           \* C10
      /\ (qry.kind = "pre" => IsDfsPreorder(G, qry.root, OrderNodes))
      /\ (qry.kind = "post" => IsDfsPostorder(G, qry.root, OrderNodes))
      /\ TreeEdgesOK(G, qry.root, qry.kind = "pre", OrderNodes, OrderEdges)
+
+\* the pure-function form of the orderings (DfsOrder, used by Scc) is the same
+RefinesFunctional ==
+  (Done /\ qry.kind \in {"pre", "post"}) =>
+     OrderNodes = (IF qry.kind = "pre" THEN PreorderOf(G, qry.root) ELSE PostorderOf(G, qry.root))
 
 \* C08: without transpose() no incoming edge is followed; with it only incoming
 \* edges, each reported reversed
